@@ -219,7 +219,9 @@ func programs() []program {
 			out = append(out, program{Kind: "const-typedef-" + tw.name, Lit: l.text, Src: fmt.Sprintf("typedef %s T\nconst T c = %s", tw.name, l.text),
 				check: func(m *compile.Module) string { return wantInt(constVal(m), l.v, tw.bits, "const c (typedef)") }})
 			out = append(out, program{Kind: "const-via-reference-" + tw.name, Lit: l.text, Src: fmt.Sprintf("const i64 big = %s\nconst %s c = big", l.text, tw.name),
-				check: func(m *compile.Module) string { return wantInt(constVal(m), l.v, tw.bits, "const c (= reference to an i64 constant)") }})
+				check: func(m *compile.Module) string {
+					return wantInt(constVal(m), l.v, tw.bits, "const c (= reference to an i64 constant)")
+				}})
 			out = append(out, program{Kind: "default-" + tw.name, Lit: l.text, Src: fmt.Sprintf("struct S { 1: optional %s f = %s }", tw.name, l.text),
 				check: func(m *compile.Module) string {
 					s := structOf(m, "S")
